@@ -294,7 +294,7 @@ _targets_before_folds = targets
 
 
 def targets():      # noqa: F811
-    """+ shared with C20: the series law for ANY number of children (pyvc.hoare: the loop over the children cut at the invariant
+    """+ the parallel law for ANY number of branches and frequencies (contracts/parallel_law.py); shared with C20: the series law for ANY number of children (pyvc.hoare: the loop over the children cut at the invariant
     `result == partial sum`), with containers evaluated with their values and sub-circuits"""
-    from . import diagrams
-    return _targets_before_folds() + [diagrams.target_child_folds()]
+    from . import diagrams, parallel_law
+    return _targets_before_folds() + [diagrams.target_child_folds()] + parallel_law.targets()
